@@ -1,6 +1,8 @@
 """C13 -- non-mutating builtins never modify their arguments."""
 from __future__ import annotations
 
+import ast
+
 from typing import Any, Dict, List, Optional, Set, Tuple
 
 from ..facts import AnalysisError, FuncInfo
@@ -188,6 +190,36 @@ def check(chk: Check) -> None:
                         if cbs and f[2] in ('filter', 'map', 'functools.reduce'):
                             chk.ok(R2, '%s :: callback via `%s`' % (ent.label, e.text()), '%s:%d' % (fi.module.rel, e.line),
                                    'hands the program-supplied function to %s' % f[2])
+    # functions of the builtin module that are not table entries but are published some other way (a second module-level
+    # table the evaluator consults, an import by another module): they are callable on program values like a builtin
+    fm = F.modules[functab.FUNCS_MOD]
+    targets = {ent.target for ent in tab.values() if ent.kind == 'fn'}
+    table_node = None
+    for st_ in fm.tree.body:
+        if isinstance(st_, (ast.Assign, ast.AnnAssign)):
+            tg_ = st_.targets if isinstance(st_, ast.Assign) else [st_.target]
+            if any(isinstance(t_, ast.Name) and t_.id == functab.TABLE for t_ in tg_):
+                table_node = st_
+    for name_, node_ in fm.defs.items():
+        q_ = fm.name + '.' + name_
+        if not isinstance(node_, ast.FunctionDef) or q_ in targets or q_ not in F.functions:
+            continue
+        published = False
+        for st_ in fm.tree.body:
+            if st_ is table_node or isinstance(st_, (ast.FunctionDef, ast.ClassDef, ast.Import, ast.ImportFrom)):
+                continue
+            for n_ in ast.walk(st_):
+                if isinstance(n_, ast.Name) and n_.id == name_ and isinstance(n_.ctx, ast.Load) and isinstance(st_, (ast.Assign, ast.AnnAssign)) \
+                        and isinstance(getattr(st_, 'value', None), (ast.Dict, ast.List, ast.Tuple, ast.Set)):
+                    published = True
+        if not published:
+            continue
+        fi_ = F.func(q_)
+        paths_ = SymExec(F, fi_).run()
+        muts_ = mutation_events(F, paths_)
+        chk.require(not muts_, R1, '%s (published through a module-level table)' % q_, fi_.where,
+                    '; '.join(sorted({d for _, _, d in muts_}))[:400] + ' -- the function is reachable by programs but is not one of the mutators'
+                    if muts_ else 'no mutation of an argument-derived value')
     _r3(chk)
     if missing:
         chk.notes.append('mutators named by the statement but absent from the table: %s' % sorted(missing))
